@@ -75,11 +75,12 @@ func (c *Cfg1) Validate() error {
 	)
 }
 
+// (the nested structure is the last field of Cfg2 and of Cfg3s, a middle field of Cfg3)
 type Cfg2 struct {
+	req   uint8
 	Title string `mapstructure:"title"`
 	Limit int    `mapstructure:"Limit2"`
 	Sub   Cfg1   `mapstructure:"sub"`
-	req   uint8
 }
 
 func (c *Cfg2) Validate() error {
@@ -110,12 +111,12 @@ func (c *Cfg3) Validate() error {
 }
 
 type Cfg3s struct {
+	req   uint8
 	Label string  `mapstructure:"label"`
 	Scale float64 `mapstructure:"Scale"`
 	Left  Cfg2    `mapstructure:"left"`
 	Right Cfg2    `mapstructure:"right_side"`
 	Tail  Cfg1    `mapstructure:"tail9"`
-	req   uint8
 }
 
 func (c *Cfg3s) Validate() error {
